@@ -105,15 +105,26 @@ type nopCloser struct{}
 
 func (nopCloser) Close() error { return nil }
 
-type failWriter struct{ after int }
+// failWriter: a link that takes `after` more bytes; then it fails (or, short, returns fewer bytes than asked without an
+// error: what io.Writer forbids and bufio turns into io.ErrShortWrite). got = what the link received.
+type failWriter struct {
+	after int
+	short bool
+	got   []byte
+}
 
 func (f *failWriter) Write(p []byte) (int, error) {
 	if f.after >= len(p) {
 		f.after -= len(p)
+		f.got = append(f.got, p...)
 		return len(p), nil
 	}
 	n := f.after
 	f.after = 0
+	f.got = append(f.got, p[:n]...)
+	if f.short {
+		return n, nil
+	}
 	return n, errors.New("link down")
 }
 
@@ -181,7 +192,13 @@ func readOnce(stream []byte, mode int, rng *vh.Rng, measure bool) readResult {
 		res.msg = msg
 		res.consumed = hdrLen + len(msg.Payload())
 		rest := len(stream) - res.consumed
-		res.line = fmt.Sprintf("ok %s rest=%d alloc=%d", showMsg(msg), rest, cap(msg.Payload()))
+		// allocation: the payload length; a buffer of larger capacity counts only once it exceeds the configured maximum (a
+		// pooled or rounded-up buffer within the limit is within the property)
+		alloc := len(msg.Payload())
+		if cap(msg.Payload()) > int(p2pcommon.MaxPayloadLength) {
+			alloc = cap(msg.Payload())
+		}
+		res.line = fmt.Sprintf("ok %s rest=%d alloc=%d", showMsg(msg), rest, alloc)
 	case err == nil:
 		res.line = "nil-nil"
 	default:
@@ -423,12 +440,13 @@ func (f *framer) readAll(max uint32, stream []byte) {
 	setMax(max)
 	cr := &countingReader{data: stream, reqs: make([]int, 0, 8)}
 	rw := v030.NewV030ReadWriter(cr, io.Discard, nopCloser{})
-	var msgs []string
+	// every message stays alive (as a handler queue would hold it) until the connection ends and is rendered only then: a
+	// codec that reuses the payload buffer or the message object for the next read changes an earlier message
+	var held []p2pcommon.Message
+	var early []string // what each message looked like right after its own ReadMsg
 	maxAlloc := 0
 	end := ""
 	for end == "" {
-		before := cr.delivered
-		_ = before
 		var msg p2pcommon.Message
 		var err error
 		_, panicked := vh.Guard(func() string { msg, err = rw.ReadMsg(); return "" })
@@ -441,17 +459,30 @@ func (f *framer) readAll(max uint32, stream []byte) {
 				end = "eofshort"
 			}
 		default:
-			msgs = append(msgs, showMsg(msg))
-			if cap(msg.Payload()) > maxAlloc {
-				maxAlloc = cap(msg.Payload())
+			held = append(held, msg)
+			early = append(early, showMsg(msg))
+			a := len(msg.Payload())
+			if cap(msg.Payload()) > int(max) {
+				a = cap(msg.Payload())
+			}
+			if a > maxAlloc {
+				maxAlloc = a
 			}
 		}
 	}
+	var msgs []string
+	for _, m := range held {
+		msgs = append(msgs, showMsg(m))
+	}
 	// which of eof / short: by the position of the last frame boundary (sum of what was delivered as messages)
 	consumed := 0
-	for range msgs {
+	changed := -1
+	for k, m := range held {
 		// recompute from the stream: each delivered message consumed header + declared length
 		d := int(binary.BigEndian.Uint32(stream[consumed+4 : consumed+8]))
+		if changed < 0 && (msgs[k] != early[k] || !bytes.Equal(m.Payload(), stream[consumed+hdrLen:consumed+hdrLen+d])) {
+			changed = k
+		}
 		consumed += hdrLen + d
 	}
 	if end == "eofshort" {
@@ -473,6 +504,10 @@ func (f *framer) readAll(max uint32, stream []byte) {
 	}
 	if maxAlloc > int(max) {
 		f.run.Fail("ReadMsg allocated more than the maximum in a message sequence", map[string]interface{}{"op": op})
+	}
+	if changed >= 0 {
+		f.run.Fail("a message read from the connection changed when later messages were read (it is no longer what was written)",
+			map[string]interface{}{"op": op, "index": changed, "when_read": early[changed], "at_end_of_connection": msgs[changed]})
 	}
 }
 
@@ -667,19 +702,86 @@ func framing(run *vh.Run) {
 		}
 		f.readAll(max, stream)
 	}
-	// (g) a writer whose link fails after k bytes. Not part of the property (which speaks about reading): no
-	// oracle, only counted, so that a panic on this path is at least visible in the distribution.
-	for i := 0; i < run.Pick(100, 1000); i++ {
+	// (g) a writer whose link fails or accepts only part of a write after k bytes. Oracle: if WriteMsg reports success, the
+	// link has received exactly the message's frame (so the other node reads it back identically); a failure must be
+	// reported as an error, not as a panic
+	for i := 0; i < run.Pick(400, 3000); i++ {
 		setMax(5000)
-		m := f.randomMsg(rng.Intn(5000))
-		fw := &failWriter{after: rng.Intn(hdrLen + len(m.payload) + 1)}
-		rw := v030.NewV030ReadWriter(bytes.NewReader(nil), fw, nopCloser{})
-		_, panicked := vh.Guard(func() string { rw.WriteMsg(m); return "" })
-		if panicked {
-			run.Count("write-failing-link=panic")
-		} else {
-			run.Count("write-failing-link=no-panic")
+		n := rng.Intn(5000)
+		if rng.Chance(1, 3) {
+			n = rng.Intn(60)
 		}
+		m := f.randomMsg(n)
+		total := hdrLen + len(m.payload)
+		fw := &failWriter{after: rng.Intn(total + 1), short: rng.Chance(1, 3)}
+		if rng.Chance(1, 6) {
+			fw.after = total + rng.Intn(10) // a healthy link
+		}
+		var w io.Writer = fw
+		if rng.Chance(1, 4) {
+			w = bufio.NewWriterSize(fw, 16+rng.Intn(200)) // the caller's own buffered writer is used as it is
+		}
+		rw := v030.NewV030ReadWriter(bytes.NewReader(nil), w, nopCloser{})
+		var err error
+		_, panicked := vh.Guard(func() string { err = rw.WriteMsg(m); return "" })
+		run.Eval("", false)
+		replay := map[string]interface{}{"message": showMsg(m), "link_accepts_bytes": fw.after, "short_write_without_error": fw.short, "link_got_bytes": len(fw.got)}
+		switch {
+		case panicked:
+			run.Count("write-failing-link=panic")
+			run.Fail("WriteMsg panicked on a failing link", replay)
+		case err != nil:
+			run.Count("write-failing-link=error")
+			if fw.after >= total {
+				run.Fail("WriteMsg failed although the link accepted every byte", replay)
+			}
+		default:
+			run.Count("write-failing-link=ok")
+			want := append(header(m.sub, m.length, m.ts, m.id, m.org), m.payload...)
+			if !bytes.Equal(fw.got, want) {
+				run.Fail("WriteMsg reported success but the link did not receive the message's frame", replay)
+			} else if r := readOnce(fw.got, 1, f.rng, false); !r.ok || showMsg(r.msg) != showMsg(m) {
+				run.Fail("a message accepted by WriteMsg is not read back identically by ReadMsg", replay)
+			}
+		}
+	}
+	// (h) the production limit, untouched: a message of exactly that size goes through both directions, one byte more is
+	// refused by the writer and — as a complete frame — by the reader without reading or allocating the payload; and the
+	// limit is the protocol's maximum message size (every legal block fits, nothing larger is buffered)
+	setMax(defaultMax)
+	if defaultMax < types.BlockSizeHardLimit() || defaultMax > types.MaxMessageSize() {
+		run.Fail("the production payload limit is not between the block size hard limit and the protocol's maximum message size",
+			map[string]interface{}{"MaxPayloadLength": defaultMax, "BlockSizeHardLimit": types.BlockSizeHardLimit(), "MaxMessageSize": types.MaxMessageSize()})
+	}
+	if defaultMax <= 64<<20 {
+		for _, d := range []int{0, 1} {
+			m := &rawMsg{sub: pickSub(rng), length: defaultMax + uint32(d), ts: pickTs(rng), id: pickID(rng), org: pickID(rng), payload: make([]byte, int(defaultMax)+d)}
+			copy(m.payload, rng.Bytes(64))
+			copy(m.payload[len(m.payload)-64:], rng.Bytes(64))
+			f.wbuf.Reset()
+			var err error
+			_, panicked := vh.Guard(func() string { err = f.w.WriteMsg(m); return "" })
+			run.Eval("", true)
+			replay := map[string]interface{}{"payload_bytes": len(m.payload), "MaxPayloadLength": defaultMax}
+			fr := append(header(m.sub, m.length, m.ts, m.id, m.org), m.payload...)
+			r := readOnce(fr, 1, rng, true)
+			switch {
+			case panicked || r.panicked:
+				run.Fail("the codec panicked at the production limit", replay)
+			case d == 0 && (err != nil || !bytes.Equal(f.wbuf.Bytes(), fr)):
+				run.Fail("WriteMsg does not emit a message of exactly the production limit", replay)
+			case d == 0 && (!r.ok || !bytes.Equal(r.msg.Payload(), m.payload)):
+				run.Fail("ReadMsg does not return a message of exactly the production limit", replay)
+			case d == 1 && (err == nil || f.wbuf.Len() != 0):
+				run.Fail("WriteMsg accepted a message above the production limit", replay)
+			case d == 1 && (r.ok || r.under > hdrLen+4096 || r.memDelta > 1<<20):
+				replay["read_from_stream"], replay["allocated"] = r.under, r.memDelta
+				run.Fail("ReadMsg read or buffered the payload of a frame above the production limit", replay)
+			}
+			run.Count(fmt.Sprintf("production-limit%+d", d))
+		}
+		f.wbuf = bytes.Buffer{}
+		f.w = v030.NewV030ReadWriter(bytes.NewReader(nil), &f.wbuf, nopCloser{})
 	}
 }
 
